@@ -310,6 +310,25 @@ func (c *BehavCheck) Run() int {
 		}(i)
 	}
 	wg.Wait()
+	// a replay that stopped making progress is run once more, alone and with a threefold patience: only
+	// a hang that repeats is reported
+	hangsConfirmed := 0
+	for i := range results {
+		if results[i].out != nil && results[i].out.Hang {
+			j := jobs[i]
+			save := c.Deadline
+			if c.Deadline == 0 {
+				c.Deadline = 20 * time.Second
+			}
+			c.Deadline *= 3
+			out, st := c.runOne(j.b, j.cfg, j.execSeed)
+			c.Deadline = save
+			results[i] = result{j.b, j.cfg, j.palSeed, j.execSeed, out, st}
+			if out.Hang {
+				hangsConfirmed++
+			}
+		}
+	}
 	// 4. verdicts
 	known, err := LoadFindings()
 	if err != nil {
@@ -493,6 +512,14 @@ func (c *BehavCheck) Run() int {
 	ev.Coverage["action_counts"] = opCount
 	ev.Coverage["truncated_by_finding"] = truncated
 	ev.Coverage["observations_explained_by_listed_finding"] = toleratedObs
+	cfgCount := map[string]int{}
+	for _, j := range jobs {
+		cfgCount["palette "+j.cfg.Pal.Name]++
+		cfgCount["backend "+j.cfg.Backend]++
+		cfgCount[fmt.Sprintf("cache %d", j.cfg.Cache)]++
+		cfgCount[fmt.Sprintf("flush %d", j.cfg.Flush)]++
+	}
+	ev.Coverage["configurations_replayed"] = cfgCount
 	ev.Coverage["simulation"] = fmt.Sprintf("tlc -simulate num=%d x %d workers, depth %d, K=%d V=%d IVs=%s, seed %d", c.Sim.Num, c.Sim.Workers, c.Sim.D, c.Sim.K, c.Sim.V, c.Sim.IVs, c.Seed)
 	ev.Violations = len(violations)
 	var extraKnown []string
